@@ -28,6 +28,9 @@ CALS = [
     Tpl("cal-fence-pulse", 'DEFCAL G q:\n\tFENCE q\n\tPULSE q "a" ' + FLAT(0.5)),
     Tpl("cal-three", 'DEFCAL G q:\n\tPULSE q "a" ' + FLAT(1.0) + '\n\tDELAY q 0.5\n\tPULSE 0 1 "b" ' + FLAT(2.0)),
     Tpl("cal-fixed0", 'DEFCAL G 0:\n\tPULSE 0 1 "b" ' + FLAT(1.0) + '\n\tSHIFT-PHASE 0 "a" 1.0'),
+    # parallel pieces that end at different times, in both orders (the hull must not depend on the order in which spans are merged)
+    Tpl("cal-parallel-long-first", 'DEFCAL G q:\n\tNONBLOCKING PULSE 0 "a" ' + FLAT(2.0) + '\n\tNONBLOCKING PULSE 1 "a" ' + FLAT(0.5)),
+    Tpl("cal-parallel-short-first", 'DEFCAL G q:\n\tNONBLOCKING PULSE 0 "a" ' + FLAT(0.5) + '\n\tNONBLOCKING PULSE 1 "a" ' + FLAT(2.0) + '\n\tNONBLOCKING PULSE 0 1 "b" ' + FLAT(1.0)),
 ]
 ZERO = ("Fence", "SetFrequency", "SetPhase", "SetScale", "ShiftFrequency", "ShiftPhase", "SwapPhases")
 
